@@ -38,7 +38,7 @@ START = datetime(2021, 3, 30, 16, 0, 37)
 DT = 60
 
 
-def _base(n_steps):
+def _base(n_steps, cheap=False):
     sp_sub = (9.0, 21.0, 1200.0, 70.0)
     p1, v1 = scen.overhead_orbit(START, *sp_sub)
     t1 = scen.target_eci(10001, p1, v1)
@@ -62,8 +62,9 @@ def _base(n_steps):
     cfg = scen.config(
         START, n_steps + 1, [scen.engine(1, [t0, t1, t2], [s1, s2])], physics=DT, model="special_perturbations",
         filter_model="two_body", station_keeping=True, events=ev, seed=11,
-        geopotential={"model": "egm96.txt", "degree": 4, "order": 4},
-        perturbations={"third_bodies": ["sun", "moon"], "solar_radiation_pressure": True, "general_relativity": False},
+        geopotential={"model": "egm96.txt", "degree": 2 if cheap else 4, "order": 0 if cheap else 4},
+        perturbations={"third_bodies": [] if cheap else ["sun", "moon"], "solar_radiation_pressure": not cheap,
+                       "general_relativity": False},
     )
     return cfg
 
@@ -280,7 +281,9 @@ def run_item(item):
         res.traces += 1
         return res
     # all completion orders of every batch of the base network (truth bytes only)
-    base_cfg, _ = _variants(max(n, 4))
+    # the schedule exploration uses the J2-only force model of the same network: every schedule is a full
+    # un-memoised run in its own process, and the completion order cannot interact with which perturbations are on
+    base_cfg = _base(max(n, 4), cheap=True)
     b = _run(base_cfg, [n])
     # batch structure from the default trace: consecutive decision points with decreasing n form one batch
     trace = b["trace"]
@@ -297,9 +300,9 @@ def run_item(item):
     for bidx, (start, nn) in enumerate(batches):
         if only is not None and bidx != only:
             continue
-        limit = None if nn <= 5 else 2
+        limit = None if nn <= 4 else 1
         if limit:
-            res.cap(f"batch of {nn}: orders with <=2 inversions")
+            res.cap(f"batch of {nn}: orders with <=1 inversion (adjacent swaps)")
         for code in sched.lehmer_codes(nn, max_sum=limit):
             if not any(code):
                 continue
